@@ -61,6 +61,16 @@ def exec_script_task(
     return exec_script(command)
 
 
+def _as_exception(error: BaseException) -> Exception:
+    """
+    Wrap an error that is not an Exception (e.g. SystemExit from `sys.exit()` in a task), so
+    that the job can be rejected like any other failed job.
+    """
+    wrapped = RuntimeError("Task terminated with {}: {}".format(type(error).__name__, error))
+    wrapped.__cause__ = error
+    return wrapped
+
+
 @register_executor("local")
 class LocalExecutor(Executor):
     """
@@ -195,6 +205,10 @@ class LocalExecutor(Executor):
                     self._scheduler.done_job(job, result)
                 except Exception as error:
                     self._scheduler.reject_job(job, error)
+                except asyncio.CancelledError:
+                    raise
+                except BaseException as error:
+                    self._scheduler.reject_job(job, _as_exception(error))
 
             def create_task(coro):
                 # Keep reference to task while it runs.
@@ -232,6 +246,10 @@ class LocalExecutor(Executor):
                 self._scheduler.done_job(job, future.result())
             except Exception as error:
                 self._scheduler.reject_job(job, error)
+            except BaseException as error:
+                # An error escaping this callback is dropped by the pool and the job would stay
+                # running forever.
+                self._scheduler.reject_job(job, _as_exception(error))
 
         assert job.args
         args, kwargs = job.args
